@@ -360,6 +360,9 @@ func (e *Enc) encodeInstr(in ssa.Instruction) {
 		for i := len(e.defers) - 1; i >= 0; i-- {
 			d := e.defers[i]
 			if !d.Block().Dominates(e.curBlock) {
+				if !e.reachBlocks[d.Block()][e.curBlock] {
+					continue // never registered on this path
+				}
 				e.note("conditional defer (havoc)")
 				for _, k := range e.expandKeys(e.callMod(d.Common())) {
 					e.havocKey(e.cur, k)
@@ -620,6 +623,7 @@ func (e *Enc) encodeMapUpdate(x *ssa.MapUpdate) {
 	// writes to a nil map belong to the nil-dereference class (assumed away, DESIGN 3.4-1)
 	e.assume(Ne(m, IntLit(0)))
 	e.frameObligation(x, "mapupdate", e.p.mapKey(mt), m, x.Pos())
+	e.writersObligation(e.p.mapKey(mt), m, x.Pos())
 	mk := e.p.mapKey(mt)
 	hk, vk := mapHasKey(mk), mapValKey(mk)
 	h := e.heapGet(e.cur, hk)
@@ -740,6 +744,11 @@ func (e *Enc) encodeStore(x *ssa.Store) {
 		return
 	}
 	_ = valT
+	e.guardObligation(av.Addr, x.Pos(), "write")
+	e.monotoneObligation(av.Addr, e.termOf(x.Val), x.Pos())
+	if av.Addr.Kind == "field" {
+		e.writersObligation(e.p.fieldKey(av.Addr.Struct, av.Addr.Field), av.Addr.Base, x.Pos())
+	}
 	e.frameObligationAddr(x, av.Addr, x.Pos())
 	e.store(av.Addr, e.termOf(x.Val))
 	e.typeInvAfterStore(av.Addr, x.Pos())
@@ -760,6 +769,7 @@ func (e *Enc) encodeUnOp(x *ssa.UnOp) {
 			e.assume(e.typeInv(c, elem, e.cur.now))
 			return
 		}
+		e.guardObligation(av.Addr, x.Pos(), "read")
 		c := e.bind(x, e.load(av.Addr))
 		e.assume(e.typeInv(c, elem, e.cur.now))
 		e.assumeLoadedInv(c, elem)
